@@ -25,6 +25,7 @@ def r_extrel(root):
     if "ExtRelativeName" not in cds: raise AnalysisError("providers.py: ExtRelativeName not found")
     for f in cds["ExtRelativeName"].body:
         if isinstance(f, ast.FunctionDef) and not f.name.startswith("__"): fns.setdefault(f.name, f)
+    if "RelativeName" not in cds: raise AnalysisError("providers.py: RelativeName not found")
     POST = pyeval.PyFn(lambda: HS({".kind": "postponed", ".__class__": POST}))
     unresolved = set()
     def mk():
@@ -39,7 +40,7 @@ def r_extrel(root):
             k = o(cClass, name, methods=[o(cMethod, m) for m in methods], extends=extends)
             for m in k[".methods"]: m[".parent"] = k
             return k
-        BB = klass("BB", ["deep"], []); B1 = klass("B1", ["go", "b1only"], [BB]); B2 = klass("B2", ["b2only"], []); K = klass("K", ["go", "stop"], [B1, B2])
+        BB = klass("BB", ["deep"], []); B1 = klass("B1", ["go", "b1only"], [BB]); B2 = klass("B2", ["b2only"], []); K = klass("K", ["stop", "go"], [B1, B2])
         i = o(cInst, "i", type=K); call = o(cCall, None, instance=i, nothing=None)
         model = o(cModel, None, classes=[K, B1, B2, BB], instances=[i], calls=[call])
         for x in (K, B1, B2, BB, i, call): x[".parent"] = model
@@ -113,4 +114,49 @@ def r_extrel(root):
         okc = got == want and (want != "Postponed" or prov.get(".postponed_counter") == 1)
         rep("reference to the method %r%s" % (name, " with %s.%s unresolved" % unres if unres else ""), okc, "ExtRelativeName('instance.type', 'methods', 'extends') resolving %r%s gives %s%s; documented %s" % (name, " while %s.%s is not resolved yet" % unres if unres else "", got, " (postponed_counter %r)" % prov.get(".postponed_counter") if want == "Postponed" else "", want + (" and the postponement counted: the resolver retries in a later round instead of binding to a class lower in the chain or reporting 'Unknown object'" if want == "Postponed" else "")), fn_="ExtRelativeName.__call__", rel=P)
     unresolved.clear()
+    # ---- the providers only read the model: reference lists and containment lists of the model stay as they are
+    def lists_of(W):
+        return {(k, a): list(v) for k, o_ in W.items() if isinstance(o_, dict) for a, v in o_.items() if isinstance(v, list)}
+    def call_provider(cname, ctor_args, W, name, start="call"):
+        env = dict(base)
+        try: prov = pyeval.instantiate(cname, list(ctor_args), {}, env)
+        except (pyeval.Raised, pyeval.Unsupported) as x_: raise AnalysisError("%s(...): %s" % (cname, x_))
+        c_, f_ = pyeval.find_method(cds, cname, "__call__")
+        try: return "ret", pyeval.call_method_of(prov, c_, f_, [W[start], HS({".kind": "attr", ".cls": W["cMethod"], ".name": "method"}), HS({".kind": "crossref", ".obj_name": name, ".cls": W["cMethod"]})], {}, env)
+        except pyeval.Raised as r_: return "raise", r_.cls
+        except pyeval.Unsupported as u_: raise AnalysisError("%s.__call__: outside the evaluated subset: %s" % (cname, u_))
+    # the chain may start at a list (a multi-valued reference as the definition path): K.extends = [B1, B2]
+    W = mk(); before = lists_of(W)
+    k, v = call_fn("get_list_of_concatenated_objects", W["K"][".extends"], "extends")
+    got = "raises " + v if k == "raise" else nm(v)
+    rep("extension chain starting at the list K.extends", got == "[B1, B2, BB]" and lists_of(W) == before and (k != "ret" or v is not W["K"][".extends"]), "get_list_of_concatenated_objects(K.extends, 'extends') gives %s and %s; documented [B1, B2, BB] as a new list (the reference list of the model is only read)" % (got, "leaves the model's lists untouched" if lists_of(W) == before else "changes a list of the model: K.extends is now %s" % nm(W["K"][".extends"])), fn_="get_list_of_concatenated_objects")
+    for cname, ctor, start, name, want in (("ExtRelativeName", ["instance.type.extends", "methods", "extends"], "call", "b1only", "b1only of B1"), ("ExtRelativeName", ["instance.type", "methods", "extends"], "call", "deep", "deep of BB"),
+                                           ("RelativeName", ["instance.type.methods"], "call", "stop", "stop of K"), ("RelativeName", ["instance.type.methods"], "call", "go", "go of K"), ("RelativeName", ["instance.type.methods"], "call", "nope", "None")):
+        W = mk(); before = lists_of(W)
+        k, v = call_provider(cname, ctor, W, name, start)
+        got = "raises " + v if k == "raise" else ("%s of %s" % (v.get(".name"), v.get(".parent", {}).get(".name")) if isinstance(v, dict) and v.get(".kind") == "obj" else nm(v))
+        same = lists_of(W) == before
+        rep("%s(%s) resolving %r leaves the model's lists untouched" % (cname, ", ".join(ctor), name), got == want and same, "%s(%s) resolving %r gives %s and %s; documented %s, and a scope provider only reads the model (a reference list or a containment list it walks keeps its elements and their textual order)" % (cname, ", ".join(repr(x) for x in ctor), name, got, "leaves the model's lists untouched" if same else "changes a list of the model (%s)" % ", ".join("%s.%s: %s -> %s" % (k_[0], k_[1][1:], nm(before[k_]), nm(lists_of(W).get(k_))) for k_ in before if lists_of(W).get(k_) != before[k_])[:200], want), fn_=cname + ".__call__", rel=P)
+    # scope redirection (importAs): the callback's list is extended into a NEW list
+    fr = next((f for f in pt.body if isinstance(f, ast.FunctionDef) and f.name == "follow_loaded_models_scope_redirection_logic"), None)
+    if fr is None: raise AnalysisError("providers.py: follow_loaded_models_scope_redirection_logic not found")
+    def redirect(obj_, cb):
+        env = dict(base); env.update({"__module__": pt, fr.args.args[0].arg: obj_, fr.args.args[1].arg: cb})
+        try: return "ret", pyeval.run_block(fr.body, env)
+        except pyeval.Raised as r_: return "raise", r_.cls
+        except pyeval.Unsupported as u_: raise AnalysisError("follow_loaded_models_scope_redirection_logic: outside the evaluated subset: %s" % u_)
+    W = mk(); m1 = HS({".kind": "model", ".name": "loaded-model"}); own = [W["B1"], W["B2"]]; holder = HS({".kind": "obj", ".name": "alias", "._tx_loaded_models": [m1], ".refs": own})
+    k, v = redirect(holder, pyeval.PyFn(lambda o_: o_[".refs"]))
+    rep("scope redirection through a reference list of the model", k == "ret" and isinstance(v, list) and v is not own and [x for x in v] == [W["B1"], W["B2"], m1] and own == [W["B1"], W["B2"]] and holder["._tx_loaded_models"] == [m1],
+        "follow_loaded_models_scope_redirection_logic with a callback that returns the reference list [B1, B2] of the object gives %s and leaves that list as %s; documented: a new list [B1, B2, loaded-model]; the model's list keeps its two elements" % ("raises " + v if k == "raise" else nm(v), nm(own)), fn_="follow_loaded_models_scope_redirection_logic", rel=P)
+    k, v = redirect(holder, None)
+    rep("no redirection callback", k == "ret" and v == [m1] and v is not holder["._tx_loaded_models"] or (k == "ret" and v == [m1]), "without a callback the result is %s; documented [loaded-model]" % ("raises " + v if k == "raise" else nm(v)), fn_="follow_loaded_models_scope_redirection_logic", rel=P)
+    pp = POST()
+    k, v = redirect(holder, pyeval.PyFn(lambda o_: pp))
+    rep("a postponed redirection", k == "ret" and v is pp, "a callback answering Postponed gives %s; documented: that Postponed" % ("raises " + v if k == "raise" else nm(v)), fn_="follow_loaded_models_scope_redirection_logic", rel=P)
+    for unres in (("i", "type"),):
+        W = mk(); unresolved.add((id(W[unres[0]]), unres[1]))
+        k, v = call_provider("RelativeName", ["instance.type.methods"], W, "go")
+        unresolved.clear()
+        rep("RelativeName with %s.%s unresolved" % unres, k == "ret" and is_post(v), "RelativeName('instance.type.methods') while %s.%s is not resolved yet gives %s; documented Postponed" % (unres[0], unres[1], "raises " + v if k == "raise" else nm(v)), fn_="RelativeName.__call__", rel=P)
     return inst, out
